@@ -43,6 +43,13 @@ const tunnelId = 10
 
 func (p *Processor) Process(ctx context.Context) error {
 	defer verifHook("proc.exit", p.tunnel)
+	// the connection to the remote desktop server does not outlive the tunnel,
+	// closing it also ends the goroutine forwarding from it
+	defer func() {
+		if p.tunnel.rwc != nil {
+			p.tunnel.rwc.Close()
+		}
+	}()
 	for {
 		pt, sz, pkt, err := p.tunnel.Read()
 		if err != nil {
